@@ -99,17 +99,27 @@ func shortTuple(k string) string {
 
 // attJudge runs both SSO entry points on the input under the configuration and evaluates
 // every invariant. It returns finding keys for C01, C04 and C07.
-func attJudge(input string, xml []byte, cfgi int) (keys []string, detail string, class string) {
+//
+// sp, when non-nil, is a live instance that is reconfigured in place for this configuration
+// (certificate store and skip option reassigned, as an operator rotating IdP certificates
+// would): a decision must depend on the configuration in force, not on an earlier one.
+func attJudge(input string, xml []byte, cfgi int, sp *saml2.SAMLServiceProvider) (keys []string, detail string, class string) {
 	w := theAttWorld()
 	cfg := attCfgs[cfgi]
 	store := cfg.Conf.Store
-	resp, r1 := validateResponse(cfg.Conf.Build(), input)
+	if sp == nil {
+		sp = cfg.Conf.Build()
+	} else {
+		sp.IDPCertificateStore = world.Store(cfg.Conf.Store...)
+		sp.SkipSignatureValidation = cfg.Conf.SkipSig
+	}
+	resp, r1 := validateResponse(sp, input)
 	// RetrieveAssertionInfo is a thin wrapper around ValidateEncodedResponse: it is run whenever
 	// validation accepted, and on every 8th rejected input (by input hash) to check agreement
 	var info *saml2.AssertionInfo
 	r2 := callResult{NilRes: true, Err: errInfo{Text: "(not called)"}}
 	if r1.Accepted() || len(input)%16 == 0 {
-		info, r2 = retrieveInfo(cfg.Conf.Build(), input)
+		info, r2 = retrieveInfo(sp, input)
 	}
 	detail = fmt.Sprintf("cfg=%s ValidateEncodedResponse: accepted=%v err=%q panic=%q | RetrieveAssertionInfo: accepted=%v err=%q", cfg.Name, r1.Accepted(), r1.Err.Text, r1.Panic, r2.Accepted(), r2.Err.Text)
 	add := func(k string) { keys = append(keys, k) }
@@ -253,7 +263,13 @@ func attReplay(prop string) mc.ReplayFunc {
 			return nil, err.Error()
 		}
 		xml := decodeInput(c.Input)
-		keys, detail, _ := attJudge(c.Input, xml, c.Cfg)
+		// the exploration judges the configurations in order on one live instance
+		sp := attCfgs[0].Conf.Build()
+		var keys []string
+		var detail string
+		for ci := 0; ci <= c.Cfg; ci++ {
+			keys, detail, _ = attJudge(c.Input, xml, ci, sp)
+		}
 		return filterKeys(keys, prop), "path: " + c.Path + "\n" + detail
 	}
 }
@@ -326,8 +342,9 @@ func attExplore(r *mc.Run, prop string) {
 			if name != "" {
 				enc = idp.Encode(xml, st.Deflate)
 			}
+			sp := attCfgs[0].Conf.Build()
 			for ci := 0; ci < ncfg; ci++ {
-				keys, detail, class := attJudge(enc, xml, ci)
+				keys, detail, class := attJudge(enc, xml, ci, sp)
 				r.Eval(1)
 				r.Bucket(class)
 				if class != "rejected" {
